@@ -421,6 +421,9 @@ def f_apply(world, dev, kind, subj, pid):
     elif dev == "zombie":
         if pid in world.procs and not world.procs[pid].zombie:
             world.exit(pid)
+    elif dev == "dying":
+        if pid in world.procs:
+            world.procs[pid].dying = True          # entries open, every read answers ESRCH
     elif dev == "halfgone":
         # the window of psutil issue 2418: the entry is still listed, the files inside it already answer ENOENT
         if pid in world.procs:
@@ -450,7 +453,7 @@ def f_run(arg):
         akey = op.split(":")[1]
         out = outcome(lambda: [(p.pid, getattr(p, "info", None)) for p in psutil.process_iter(attrs=ATTRS[akey])])
     w.hook = None
-    listed1 = sorted(p_ for p_ in w.procs if not getattr(w.procs[p_], "halfgone", False))      # a half-gone entry is as good as gone
+    listed1 = sorted(p_ for p_ in w.procs if not getattr(w.procs[p_], "halfgone", False) and not getattr(w.procs[p_], "dying", False))      # a half-gone entry is as good as gone
     v = None
     if out[0] != "ok":
         v = ("f:%s-raised:%s" % (op.split(":")[0], out[1]), "%s raised %r under %r at %r"
@@ -485,7 +488,7 @@ def f_part(ctx):
             base = f_run((op, (), warm))
             tasks.append((op, (), warm))
             n = len(base["accesses"])
-            singles = [(i, d) for i in range(n) if base["accesses"][i][2] is not None for d in ("vanish", "zombie", "halfgone")]
+            singles = [(i, d) for i in range(n) if base["accesses"][i][2] is not None for d in ("vanish", "zombie", "halfgone", "dying")]
             for sd in singles:
                 tasks.append((op, (sd,), warm))
             # pairs: second deviation at a later access of the *re-run*
